@@ -22,6 +22,7 @@ namespace zoo {
       struct Owned { void* p; void (*del)(void*); }; Owned owned[64]; int nowned = 0;      // harness-owned helper objects, released before the units and the Lexicon
       template<class T> T* own(T* p) { if (nowned < 64) owned[nowned++] = { p, [](void* q) { delete static_cast<T*>(q); } }; return p; }
       ~World() { while (nowned > 0) { --nowned; owned[nowned].del(owned[nowned].p); } }
+      bool printable = false;                          // the nodes will be handed to the printer: enumerator arguments stay inside their enumeration
       bool concrete = false; unsigned tick = 0;        // concrete mode: picks are a deterministic counter (used for churn)
       unsigned pick(unsigned n) { return concrete ? (tick++ % n) : vp_pick(n); }
       uint64_t nd() { return concrete ? (0x9E3779B97F4A7C15ull * ++tick) : nondet_ulong(); }
@@ -119,7 +120,7 @@ namespace zoo {
       ZCASE { v.generative(); const ipr::Expr& a = w.e(); const ipr::Array_delete& n = *lx.make_array_delete(a); v.template node<ipr::Array_delete>(n); v.operands(same(n.operand(), a) && same(n.storage(), a)); v.typed(n, nullptr); return; }
       ZCASE { v.generative(); const ipr::Expr& a = w.e(); const ipr::Delete& n = *lx.make_delete(a); v.template node<ipr::Delete>(n); v.operands(same(n.operand(), a) && same(n.storage(), a)); v.typed(n, nullptr); return; }
       ZCASE { v.generative(); const ipr::Expr& a = w.e(); const ipr::Restriction& n = *lx.make_restriction(a); v.template node<ipr::Restriction>(n); v.operands(same(n.operand(), a)); v.typed(n, &lx.bool_type()); return; }
-      ZCASE { uint64_t d = w.concrete ? w.pick(5) : (w.nd() & 0xffffffffu); const ipr::Expr& a = w.e(); const ipr::Type* et; auto ty = w.ot(et);   /* concrete mode: a valid enumerator, the node may be printed */
+      ZCASE { uint64_t d = (w.concrete || w.printable) ? w.pick(5) : (w.nd() & 0xffffffffu); const ipr::Expr& a = w.e(); const ipr::Type* et; auto ty = w.ot(et);   /* concrete mode: a valid enumerator, the node may be printed */
               const ipr::Enclosure& n = *lx.make_enclosure(ipr::Delimiter(d), a, ty); v.template node<ipr::Enclosure>(n);
               v.operands(same(n.expr(), a) && same(n.operand(), a) && (uint64_t)(unsigned)n.delimiters() == d); v.typed(n, et); return; }
       ZCASE { v.generative(); const ipr::Type& ty = w.t(); const ipr::Enclosure& enc = *lx.make_enclosure(ipr::Delimiter::Paren, w.e()); const ipr::Enclosure& enc2 = *lx.make_enclosure(ipr::Delimiter::Brace, w.e());
